@@ -6,6 +6,9 @@ mod mutators;
 mod oracles;
 mod props;
 mod script;
+#[path = "../../../fuzz/oracles/c01.rs"]
+mod fuzz_c01;
+mod fuzz_seed;
 
 fn main() {
     let ctx = engine::Ctx::from_args();
